@@ -164,7 +164,7 @@ CHECKS = {
         "DESIGN.md section 4, C12",
     ),
     "C03": (
-        "Hypothesis generation of source-module layouts (72 layout families x names/operators/whitespace/context wrappers) executed "
+        "Hypothesis generation of source-module layouts (73 layout families x names/operators/whitespace/context wrappers) executed "
         "as real modules via linecache; oracle = behavioural differential between the recorded lambda (compiled) and the callable "
         "object actually passed, on sample arguments; refusal allowed only outside the documented-supported class",
         "Every generated module performs operator calls with capture-free lambdas carrying unique markers on a recording dataset; "
